@@ -409,6 +409,44 @@ class DeadScopeGen:
 
 
 # ---------------------------------------------------------------------------
+# S2-deadcode: compound statements (loops, ifs) that are dead - behind a return / break / continue of the same
+# statement list; only unreachable blocks may be pruned, and all of them must be
+
+
+class DeadCodeGen:
+    PLACES = DeadScopeGen.PLACES
+    DEAD = ["while", "for", "if", "if-else-return", "while-with-break"]
+
+    def __init__(self, ch):
+        self.ch = ch
+        self.kinds_used = []
+
+    def program(self):
+        c = self.ch.choose
+        place = self.PLACES[c(len(self.PLACES))]
+        dead = self.DEAD[c(len(self.DEAD))]
+        self.position = f"{place}:{dead}"
+        D = {
+            "while": ["while ext(7):", "    mark(70)"],
+            "for": ["for i9 in range(n):", "    mark(71)"],
+            "if": ["if ext(7):", "    mark(72)"],
+            "if-else-return": ["if ext(7):", "    mark(73)", "else:", "    return v + 7"],
+            "while-with-break": ["while ext(7):", "    mark(74)", "    if ext(8):", "        break"],
+        }[dead] + ["mark(79)"]
+        L = ["def f(x, y, n, c, v=0):", "    mark(1)"]
+        if place == "after-return-at-top":
+            L += ["    if ext(0):", "        mark(2)", "    return v"] + ["    " + d for d in D]
+        elif place == "after-return-in-if":
+            L += ["    if ext(1):", "        mark(3)", "        return v"] + ["        " + d for d in D] + ["    mark(4)", "    return v"]
+        else:
+            t = {"after-break": "break", "after-continue": "continue", "after-return-in-loop": "return v"}[place]
+            L += ["    while ext(1):", "        mark(3)", "        if ext(0):", "            mark(2)", f"            {t}"] + ["            " + d for d in D] + \
+                 ["        v += 1", "    mark(4)", "    return v"]
+        self.kinds_used = [dead]
+        return "\n".join(L) + "\n"
+
+
+# ---------------------------------------------------------------------------
 # S2-for: what a for loop leaves in its target
 
 
